@@ -79,9 +79,12 @@ package storage
 //@   pure
 //@   ensures [feature] result == native_ttl
 
+// last_tso_err: the error of the last timestamp request (scratch: valid until the next call)
+//@ ghost last_tso_err Iface scratch
 //@ func KvStorage.GetTimestampOracle(ctx) (timestamp, err)
 //@   assumed
-//@   pure
+//@   modifies ghost.last_tso_err
+//@   ensures [recorded] last_tso_err == err
 
 //@ func ExclusiveKvStorage.GetExclusiveKvStorage() (result)
 //@   assumed
